@@ -524,6 +524,26 @@ func c20Matrix(yield func(c20Serve) bool) {
 	}
 }
 
+// c20Crowds: many tasks, one of which is never (or late) ready - at the positions where a fixed-width bookkeeping of
+// readiness would lose it (the 1st, 33rd, 64th, 65th, the last of 63..130 tasks).
+func c20Crowds(yield func(c20Serve) bool) {
+	s := int64(time.Second)
+	for _, n := range []int{63, 64, 65, 66, 128, 129, 130} {
+		for _, pos := range []int{0, 32, 63, 64, n - 1} {
+			if pos >= n {
+				continue
+			}
+			for _, ready := range []int64{-1, 3 * s} {
+				tasks := make([]c20Task, n)
+				tasks[pos].ReadyNS = ready
+				if !yield(c20Serve{Tasks: tasks, Sig: "TERM", SigNS: 5 * s}) {
+					return
+				}
+			}
+		}
+	}
+}
+
 func c20GenBuild(t *rapid.T) c20Build {
 	maxIfaces := 8
 	if rapid.IntRange(0, 7).Draw(t, "manyifaces") == 0 {
@@ -563,6 +583,7 @@ func TestVerif_C20(t *testing.T) {
 		}
 	}, bprop)
 	verifkit.Enumerate(k, t, "serve-behaviour-pairs-x-signal", true, c20Matrix, sprop)
+	verifkit.Enumerate(k, t, "serve-many-tasks-one-not-ready", true, c20Crowds, sprop)
 	verifkit.Rapid(k, t, "serve-scripted-tasks", k.N(3000, 400000), c20GenServe, sprop)
 }
 
